@@ -1,17 +1,17 @@
 #!/bin/bash
 # Re-run our check against an already recorded seeded change and update its meta.json:
 #   tools/recheck_seed.sh <ID> [tier]
-ID="$1"; TIER="${2:-quick}"
+ID="$1"; TIER="${2:-quick}"; PROP="${ID%%-*}"   # seeded/C05-2 is a second change for property C05
 unset CARGO_TARGET_DIR
-VERIF_THREADS="${VERIF_THREADS:-6}" /verif/tools/mutant_run.sh "/verif/seeded/$ID/patch.diff" "$ID" "$TIER" >"/tmp/verify-$ID-check.log" 2>&1; CHECK=$?
-python3 - "$ID" "$CHECK" "$TIER" <<'E'
+VERIF_THREADS="${VERIF_THREADS:-6}" /verif/tools/mutant_run.sh "/verif/seeded/$ID/patch.diff" "$PROP" "$TIER" >"/tmp/verify-$ID-check.log" 2>&1; CHECK=$?
+python3 - "$ID" "$CHECK" "$TIER" "$PROP" <<'E'
 import json,sys
 i,check,tier=sys.argv[1],int(sys.argv[2]),sys.argv[3]
 p=f'/verif/seeded/{i}/meta.json'
 m=json.load(open(p))
 tail=open(f'/tmp/verify-{i}-check.log').read().splitlines()[-6:]
 v=m.setdefault('verified_by_coordinator',{})
-v.update({'our_check':f'./check {i} {tier} via tools/mutant_run.sh','our_check_exit':check,'detected':check==1,'check_output_tail':tail})
+v.update({'our_check':f'./check {sys.argv[4]} {tier} via tools/mutant_run.sh','our_check_exit':check,'detected':check==1,'check_output_tail':tail})
 json.dump(m,open(p,'w'),indent=1)
 print(i,'check_exit',check,'detected',check==1)
 E
